@@ -85,7 +85,19 @@ def make_script(sc: dict, i: int):
         if typ != "time-based" and sc.get("future_outputs") and (r >> 20) % 4 == 0:
             beh["out_time"] = t + 1 + (r >> 23) % 2
         asyncs = []
-        for c in agents_of:
+        if sc.get("broadcast_set_data") and agents_of and h(seed, i, t, k, "bc") % 3 != 0:
+            # ONE set_data call in which every entity of this agent writes to every controller it is connected to
+            # (the example_mas pattern): the loop over the payload returns to a controller after addressing another one
+            ctrls = []
+            for c in agents_of:
+                if (c["src"], c["seid"]) not in ctrls:
+                    ctrls.append((c["src"], c["seid"]))
+            payload = {}
+            for eid in (0, 1):
+                payload[f"S{i}.{eid}"] = {f"S{a}.{ae}": {ATTRS[h(seed, i, t, k, "bca", ci) % 2]: token(i, n, eid, ci % 4) + 500000}
+                                          for ci, (a, ae) in enumerate(ctrls)}
+            asyncs.append(("set_data", None, payload))
+        for c in ([] if sc.get("broadcast_set_data") else agents_of):
             rr = h(seed, i, t, k, "sd", c["src"])
             if rr % 3 != 0:
                 # this simulator (agent) sets data for an entity of the connection's source
@@ -264,22 +276,25 @@ def reply_lines(action):
     return [f"act data {p} {'-' if t is None else t} {len(items)}" + "".join(f" {e} {a} {s_val(v)}" for e, a, v in items)]
 
 
-def async_line(ev):
+def async_lines(ev):
+    """Model lines of one asynchronous request.  A set_data call that addresses several simulators is the sequence of
+    its per-simulator parts (mosaik walks the payload and checks / writes destination by destination)."""
     if ev[0] == "set_data":
-        _, sid, target, payload = ev
-        items = []
+        _, sid, _target, payload = ev
+        per_target = {}
         for src_full, dests in payload.items():
             ssid, seid = src_full.split(".", 1)
             for dest_full, attrs in dests.items():
                 dsid, deid = dest_full.split(".", 1)
                 for a, v in attrs.items():
-                    items.append((int(deid), ATTRS.index(a), int(ssid[1:]), int(seid), v))
-        return f"act setdata {sid[1:]} {target} {len(items)}" + "".join(f" {e} {a} {s} {se} {s_val(v)}" for e, a, s, se, v in items)
+                    per_target.setdefault(int(dsid[1:]), []).append((int(deid), ATTRS.index(a), int(ssid[1:]), int(seid), v))
+        return [f"act setdata {sid[1:]} {target} {len(items)}" + "".join(f" {e} {a} {s} {se} {s_val(v)}" for e, a, s, se, v in items)
+                for target, items in per_target.items()]
     if ev[0] == "get_data_req":
-        return f"act getdata {ev[1][1:]} {ev[2]}"
+        return [f"act getdata {ev[1][1:]} {ev[2]}"]
     if ev[0] == "set_event":
-        return f"act setevent {ev[1][1:]} {ev[2]}"
-    return None
+        return [f"act setevent {ev[1][1:]} {ev[2]}"]
+    return []
 
 
 def build_lines(sc):
@@ -399,7 +414,7 @@ def compare(driver, sc: dict, sched_seed: int):
             status = outcome
         if action[0] == "reply":
             # asynchronous requests the simulator made after the release come first in the block
-            pre = [l for l in (async_line(e) for e in events) if l]
+            pre = [l for e in events for l in async_lines(e)]
             refused = status.startswith("failed ScenarioError async-refused") or status.startswith("failed SimulationError event-not-rt")
             for j, l in enumerate(pre):
                 lines.append(l)
@@ -569,6 +584,28 @@ def gen_scenario(rng: random.Random, groups: bool = True, async_req: bool = Fals
         sc["fault"] = {"sim": rng.randrange(n), "n": rng.randrange(0, 4),
                        "kind": rng.choice(["float", "str", "bool", "negative", "equal", "past", "none", "out_time_past", "out_time_zero",
                                            "out_time_zero", "float_integral"])}
+    return normalise(sc)
+
+
+def gen_mas_scenario(rng: random.Random) -> dict:
+    """Multi-agent pattern (examples/example_mas): 1-3 controllers, 1-2 agent simulators connected to them with
+    async_requests=True; every agent entity writes to every controller in ONE set_data call per step."""
+    nc, na = rng.choice([1, 2, 2, 3]), rng.choice([1, 1, 2])
+    sims = [{"type": rng.choice(["time-based", "time-based", "hybrid"]), "group": [], "init_ev": None} for _ in range(nc)]
+    sims += [{"type": rng.choice(["time-based", "time-based", "hybrid", "event-based"]), "group": [], "init_ev": None} for _ in range(na)]
+    connects = []
+    for b in range(nc, nc + na):
+        for a in range(nc):
+            if a == 0 or rng.random() < 0.85:
+                connects.append({"src": a, "seid": rng.randrange(2), "dst": b, "deid": rng.randrange(2), "sattr": 2, "dattr": rng.choice([0, 1]),
+                                 "ts": 0, "weak": False, "init": False, "async": True})
+    if rng.random() < 0.4:
+        sims.append({"type": "time-based", "group": [], "init_ev": None})      # a bystander feeding a controller the ordinary way
+        connects.append({"src": len(sims) - 1, "seid": 0, "dst": 0, "deid": 1, "sattr": 3, "dattr": 0, "ts": 0, "weak": False, "init": False,
+                         "async": False})
+    sc = {"sims": sims, "connects": connects, "until": rng.randint(3, 6), "max_loop": 100,
+          "lazy": rng.random() < 0.5, "cache": rng.random() < 0.5, "beh_seed": rng.randrange(10 ** 9),
+          "sparse_persistent": False, "future_outputs": False, "broadcast_set_data": True}
     return normalise(sc)
 
 
